@@ -133,6 +133,10 @@ def check(cfg, lines):
             if what in ("cputg", "cgetg"):
                 # a granted request withdrawn in this instant: remembered until the node's next movement
                 withdrawn.append((t, ed, what))
+            elif what == "droproom":
+                for pp in ("C09", "C10", "C13"):
+                    v(pp, "node %d dropped an item at %s although its conveyor out-edge %d would have admitted an entry at that instant "
+                          "(the belt store's admission test accepts; an accumulating belt takes items until it holds its capacity)" % (nq, t, ed))
             elif what == "stale":
                 for pp in ("C10", "C15"):
                     v(pp, "node %d requested %s edge %d at %s, but its state-dependent policy names another edge at that instant: the "
@@ -308,10 +312,15 @@ def check(cfg, lines):
         if int(nd["gen"]) != n_generated:
             v("C18", "node %d reports %s generated, %d items were created" % (n, nd["gen"], n_generated))
         if int(nd["disc"]) != disc_count[n]:
-            v("C18", "node %d reports %s discarded, %d discards happened" % (n, nd["disc"], disc_count[n]))
+            for pp in ("C18", "C03"):
+                v(pp, "node %d reports %s discarded, %d discards happened" % (n, nd["disc"], disc_count[n]))
         if int(nd["recv"]) != recv_count[n]:
             v("C18", "sink %d reports %s received, %d receptions happened" % (n, nd["recv"], recv_count[n]))
         pushed = sum(1 for i in t_put for (t, ed) in t_put[i] if src_of_edge[ed] == n)
+        if kind == "source" and not crash and not 0 <= int(nd["gen"]) - pushed - int(nd["disc"]) <= 1:
+            # generated = pushed downstream + dropped (+ the one item the source may have in hand)
+            for pp in ("C18", "C03"):
+                v(pp, "source %d reports %s generated and %s discarded, it pushed %d items downstream" % (n, nd["gen"], nd["disc"], pushed))
         if kind in ("machine", "splitter", "combiner") and int(nd["procd"]) != pushed:
             v("C18", "%s %d reports %s processed, %d items were pushed downstream" % (kind, n, nd["procd"], pushed))
         if kind == "sink" and abs(float(nd["cycle"]) - cycle[n]) > 1e-6:
